@@ -454,7 +454,7 @@ func (hni *HyperNodesInfo) updateParent(hn *topologyv1alpha1.HyperNode) sets.Set
 
 	removedMembers := oldMembers.Difference(newMembers)
 	for member := range removedMembers {
-		hni.resetParent(member)
+		hni.releaseChild(hn.Name, member)
 	}
 	return removedMembers
 }
@@ -737,7 +737,16 @@ func (hni *HyperNodesInfo) updateHyperNodesSetByTier(hyperNode *topologyv1alpha1
 func (hni *HyperNodesInfo) removeParent(name string) {
 	children := hni.getChildren(name)
 	for child := range children {
-		hni.resetParent(child)
+		hni.releaseChild(name, child)
+	}
+}
+
+// releaseChild clears the parent pointer of child if it points to parent. A HyperNode that lists
+// a member it never adopted (another HyperNode claimed it first) must not detach that member
+// from its real parent when it drops the member or is deleted.
+func (hni *HyperNodesInfo) releaseChild(parent, child string) {
+	if hn, ok := hni.hyperNodes[child]; ok && hn.Parent == parent {
+		hn.Parent = ""
 	}
 }
 
